@@ -213,7 +213,7 @@ def attributes(tokeniser: Any) -> list[Route]:
                 # Attributes-only: return Route with Empty NLRI
                 if attr:
                     empty_nlri = Empty(AFI.ipv4, SAFI.unicast)
-                    return [Route(empty_nlri, attr)]
+                    return [Route(empty_nlri, attr, nexthop=template_settings.nexthop)]
             return []
 
         if command == 'nlri':
@@ -281,7 +281,7 @@ def attributes(tokeniser: Any) -> list[Route]:
     # If 'nlri' keyword was present but no prefixes followed, return attributes-only
     if not routes and attr:
         empty_nlri = Empty(AFI.ipv4, SAFI.unicast)
-        return [Route(empty_nlri, attr)]
+        return [Route(empty_nlri, attr, nexthop=template_settings.nexthop)]
 
     return routes
 
